@@ -238,12 +238,12 @@ Proof.
   - inversion H. reflexivity.
   - cbn [filter]. unfold included at 1. destruct (excluded s); cbn [negb].
     + apply IH. assumption.
-    + unfold read_segment in H. unfold seg_bytes at 1.
+    + cbn [map concat]. unfold read_segment in H. unfold seg_bytes at 1.
       destruct (calc_offset l (sg_base s)) as [off| | |]; cbn [bind] in H; try discriminate.
       destruct (W63 <=? off); [discriminate|].
       destruct (zlen img <=? off); [discriminate|]. cbn [bind] in H.
       destruct (digest_preimage l img t) as [r| | |]; cbn [bind] in H; try discriminate.
-      inversion H; subst p. cbn [map concat]. f_equal. apply IH. reflexivity.
+      apply Ok_inj' in H. subst p. f_equal. apply IH. reflexivity.
 Qed.
 
 (** the read starts inside the image for every hashed segment *)
@@ -325,7 +325,7 @@ Proof.
   cbn [digest_preimage]. destruct (excluded s) eqn:He; [exact IH|].
   destruct Hs as (Hr & (Hi0 & Hi1 & Hi2) & Hlt); [unfold included; rewrite He; reflexivity|].
   unfold read_segment. rewrite (calc_offset_anchored _ _ _ Ha Hr). cbn [bind].
-  assert (zlen img < W63).
+  assert (spec_offset region_end (sg_base s) < W63).
   { destruct l; cbn [anchored] in Ha; try contradiction; destruct Ha as (? & ? & ? & ?);
       unfold spec_offset, BASE, W32, W63 in *; lia. }
   replace (W63 <=? spec_offset region_end (sg_base s)) with false by (symmetry; apply Z.leb_gt; lia).
@@ -797,7 +797,7 @@ Lemma stitch_bios_only_refuted_witness :
                   zlen file' <> zlen img /\ zn file' off <> zn km 0.
 Proof.
   exists (seqZ 0 64), (mkFE 11 (4294967296 - 64) 16), [255; 254].
-  split; [vm_compute; split; discriminate|].
+  split; [vm_compute; split; [discriminate|reflexivity]|].
   cbn zeta. split; [vm_compute; discriminate|]. split; [vm_compute; split; discriminate|].
   eexists. split; [vm_compute; reflexivity|]. split; vm_compute; discriminate.
 Qed.
@@ -808,4 +808,163 @@ Lemma stitch_not_atomic_witness :
 Proof.
   exists (LIFD 0 64), (seqZ 0 64), [mkFE 11 (4294967296 - 64) 16; mkFE 12 (4294967296 - 32) 1], [], [1; 2], [255; 254].
   eexists. split; [vm_compute; reflexivity|]. vm_compute. discriminate.
+Qed.
+
+(* ================================================================== *)
+(** * additions used by Props/C19.v *)
+
+(** ** segments: fields of a well-formed entry, inversion, CBFS addresses *)
+
+Definition fit_entry_wf (e : fit_entry) : Prop :=
+  0 <= fe_addr e < W32 /\ 0 <= fe_size e < 16777216.
+
+Lemma startup_seg_wf flags e :
+  fit_entry_wf e -> startup_seg flags e = mkSeg (fe_addr e) (16 * fe_size e) flags.
+Proof.
+  intros [Ha Hs]. unfold startup_seg.
+  rewrite (wrap32_small (fe_addr e)) by assumption.
+  rewrite (wrap32_small (fe_size e * 16)) by (unfold W32; lia).
+  f_equal. lia.
+Qed.
+
+Lemma map_ext_in_filter {A B} (f g : A -> B) (sel : A -> bool) l :
+  (forall x, In x l -> sel x = true -> f x = g x) -> map f (filter sel l) = map g (filter sel l).
+Proof.
+  intros H. apply map_ext_in. intros x Hx. apply filter_In in Hx. destruct Hx. auto.
+Qed.
+
+(** whenever the call returns, the list is one segment per startup entry, in FIT order *)
+Theorem create_ibb_segments_ok_inv se_count se_idx flags fit segs :
+  create_ibb_segments se_count se_idx flags (Some fit) = Ok segs ->
+  segs = map (startup_seg flags) (filter is_startup fit) /\
+  count_sel is_startup fit < 256 /\ 0 <= se_idx < se_count.
+Proof.
+  unfold create_ibb_segments. rewrite create_segments_characterised.
+  destruct (count_sel is_startup fit <? 256) eqn:Hc; cbn [bind]; [|discriminate].
+  destruct (0 <=? se_idx) eqn:H0; cbn [andb]; [|discriminate].
+  destruct (se_idx <? se_count) eqn:H1; [|discriminate].
+  intros E. apply Ok_inj' in E. apply Z.ltb_lt in Hc, H1. apply Z.leb_le in H0.
+  split; [symmetry; assumption|]. split; [assumption|lia].
+Qed.
+
+Theorem create_ibb_segments_fit se_count se_idx flags fit :
+  0 <= se_idx < se_count -> count_sel is_startup fit < 256 ->
+  Forall (fun e => is_startup e = true -> fit_entry_wf e) fit ->
+  create_ibb_segments se_count se_idx flags (Some fit) =
+  Ok (map (fun e => mkSeg (fe_addr e) (16 * fe_size e) flags) (filter is_startup fit)).
+Proof.
+  intros Hi Hc Hwf. rewrite create_ibb_segments_exact by assumption. f_equal.
+  apply map_ext_in_filter. intros e He Hs. apply startup_seg_wf.
+  rewrite Forall_forall in Hwf. auto.
+Qed.
+
+Theorem create_ibb_segments_overflow se_count se_idx flags fit :
+  256 <= count_sel is_startup fit ->
+  create_ibb_segments se_count se_idx flags (Some fit) = Panic.
+Proof.
+  intros H. unfold create_ibb_segments. rewrite create_segments_overflow by assumption. reflexivity.
+Qed.
+
+Lemma create_ibb_segments_refuted_witness :
+  exists fit, Forall (fun e => is_startup e = true -> fit_entry_wf e) fit /\
+              count_sel is_startup fit = 256 /\ create_ibb_segments 1 0 0 (Some fit) = Panic.
+Proof.
+  exists (repeat (mkFE 7 4294963200 16) 256). split; [|split; vm_compute; reflexivity].
+  apply Forall_forall. intros e He. apply repeat_spec in He. subst e. intros _.
+  unfold fit_entry_wf, W32. cbn [fe_addr fe_size]. lia.
+Qed.
+
+(** an entry address above 4 GiB does not fit IBBSegment.Base (uint32): it is truncated *)
+Lemma create_ibb_segments_truncates_witness :
+  exists e, create_ibb_segments 1 0 0 (Some [e]) = Ok [mkSeg 4294963200 256 0] /\
+            fe_addr e <> 4294963200.
+Proof. exists (mkFE 7 (4294967296 + 4294963200) 16). split; [vm_compute; reflexivity|cbn; lia]. Qed.
+
+(** coreboot: physical address of the file data when the end of the file maps to 4 GiB *)
+Definition cbfs_file_wf (file_size cbfs_off : Z) (f : cbfs_file) : Prop :=
+  0 <= cbfs_off + cf_rec f + cf_sub f < file_size.
+
+Lemma cbfs_seg_spec flags file_size cbfs_off f :
+  0 < file_size <= BASE -> cbfs_file_wf file_size cbfs_off f ->
+  cbfs_seg flags file_size cbfs_off f =
+  mkSeg (BASE - file_size + (cbfs_off + cf_rec f + cf_sub f)) (cf_size f) flags.
+Proof.
+  intros Hf Hw. unfold cbfs_file_wf in Hw. unfold cbfs_seg. f_equal.
+  rewrite !wrap32_mod. unfold W32, BASE in *.
+  replace ((4294967296 - file_size) mod 4294967296 + cbfs_off + cf_rec f + cf_sub f)
+    with ((4294967296 - file_size) mod 4294967296 + (cbfs_off + cf_rec f + cf_sub f)) by lia.
+  rewrite Zplus_mod_idemp_l. apply Z.mod_small. lia.
+Qed.
+
+Theorem create_ibb_segments_cbfs_exact se_count se_idx flags file_size cbfs_off files :
+  0 <= se_idx < se_count -> count_sel is_ibb_file files < 256 ->
+  0 < file_size <= BASE ->
+  Forall (fun f => is_ibb_file f = true -> cbfs_file_wf file_size cbfs_off f) files ->
+  create_ibb_segments_cbfs se_count se_idx flags file_size cbfs_off files =
+  Ok (map (fun f => mkSeg (BASE - file_size + (cbfs_off + cf_rec f + cf_sub f)) (cf_size f) flags)
+          (filter is_ibb_file files)).
+Proof.
+  intros Hi Hc Hf Hwf. unfold create_ibb_segments_cbfs.
+  rewrite create_segments_cbfs_exact by assumption. cbn [bind].
+  replace (0 <=? se_idx) with true by (symmetry; apply Z.leb_le; lia).
+  replace (se_idx <? se_count) with true by (symmetry; apply Z.ltb_lt; lia).
+  cbn [andb]. f_equal. apply map_ext_in_filter. intros f Hin Hs. apply cbfs_seg_spec; [assumption|].
+  rewrite Forall_forall in Hwf. auto.
+Qed.
+
+Theorem create_ibb_segments_cbfs_ok_inv se_count se_idx flags file_size cbfs_off files segs :
+  create_ibb_segments_cbfs se_count se_idx flags file_size cbfs_off files = Ok segs ->
+  segs = map (cbfs_seg flags file_size cbfs_off) (filter is_ibb_file files).
+Proof.
+  unfold create_ibb_segments_cbfs, create_segments_cbfs. rewrite collect_segs_characterised.
+  destruct (count_sel is_ibb_file files <? 256); cbn [bind]; [|discriminate].
+  destruct ((0 <=? se_idx) && (se_idx <? se_count)); [|discriminate].
+  intros E. apply Ok_inj' in E. symmetry. assumption.
+Qed.
+
+(** ** digest: the call succeeds on an anchored layout *)
+
+Definition seg_in_region (region_end : Z) (img : list Z) (s : segment) : Prop :=
+  BASE - region_end <= sg_base s < BASE /\ seg_inside (spec_offset region_end) img s.
+
+Section Hash2.
+  Variable H : Z -> list Z -> list Z.
+
+  Theorem ibbs_digest_anchored_total ver alg l region_end img segs :
+    anchored l region_end -> region_end <= zlen img ->
+    alg_supported ver alg = true ->
+    Forall (fun s => included s = true -> seg_in_region region_end img s) segs ->
+    ibbs_digest H ver alg l img segs =
+    Ok (H alg (concat (map (fun s => slice img (spec_offset region_end (sg_base s)) (sg_size s))
+                           (filter included segs)))).
+  Proof.
+    intros Ha Hre Hs Hall.
+    assert (Hall' : Forall (fun s => included s = true ->
+                     BASE - region_end <= sg_base s < BASE /\ seg_inside (spec_offset region_end) img s /\
+                     spec_offset region_end (sg_base s) < zlen img) segs).
+    { eapply Forall_impl; [|exact Hall]. cbn beta. intros s Hi Hinc. destruct (Hi Hinc) as [Hr Hin].
+      split; [assumption|]. split; [assumption|]. unfold spec_offset. lia. }
+    destruct (digest_preimage_anchored_ok l region_end img segs Ha Hall') as [p Hp].
+    assert (Hall2 : Forall (fun s => included s = true ->
+                     BASE - region_end <= sg_base s < BASE /\ seg_inside (spec_offset region_end) img s) segs).
+    { eapply Forall_impl; [|exact Hall]. cbn beta. intros s Hi Hinc. exact (Hi Hinc). }
+    pose proof (digest_preimage_anchored _ _ _ _ _ Ha Hall2 Hp) as Hpe.
+    unfold ibbs_digest, get_ibbs_digest. rewrite Hs, Hp. cbn [bind fst snd]. rewrite Hpe. reflexivity.
+  Qed.
+End Hash2.
+
+Lemma alg_roundtrips_supported ver a : alg_name_roundtrips ver a = true -> alg_supported ver a = true.
+Proof.
+  unfold alg_name_roundtrips, alg_supported. destruct (ver =? 1); [auto|].
+  intros E. rewrite E. reflexivity.
+Qed.
+
+Theorem create_ibb_digest_total ver l img segs p : forall algs,
+  Forall (fun a => alg_name_roundtrips ver a = true) algs ->
+  digest_preimage l img segs = Ok p ->
+  create_ibb_digest ver algs l img segs = Ok (map (fun a => (a, p)) algs).
+Proof.
+  induction 1 as [|a t Ha Ht IH]; intros Hp; [reflexivity|].
+  cbn [create_ibb_digest map]. rewrite Ha. unfold get_ibbs_digest.
+  rewrite (alg_roundtrips_supported _ _ Ha), Hp. cbn [bind]. rewrite (IH Hp). reflexivity.
 Qed.
